@@ -304,8 +304,13 @@ func (fr *Frame) applySpecClosure(spec *FuncSpec, key string, sig *types.Signatu
 		}
 		if fr.trustsPre(key) {
 			fc.assumes["precondition of "+key+" assumed at its call sites in "+funcKey(fr.fn)+" (trustpre): "+cl.Text] = true
+		} else if preProvedByOtherCheck(cl, fc) { // ext_propfilter.go
+			fc.assumes["precondition of "+key+" at its call sites in "+funcKey(fc.root)+" is an obligation of check "+strings.Join(cl.Props, ",")+", not of this run: "+cl.Text] = true
 		} else {
 			fc.oblige(fr, "pre", key+":"+label, g, t, pos, cl.Text, fr.props())
+		}
+		if fr.trustsPreQuiet(key) {
+			continue // `trustpre quiet:` — the (trusted) precondition is not added to this function's context
 		}
 		fc.assume(g, t)
 	}
@@ -320,11 +325,15 @@ func (fr *Frame) applySpecClosure(spec *FuncSpec, key string, sig *types.Signatu
 		} else if ob, prop := fr.panicPropagation(t); prop {
 			// caller documents its own panics: the callee's panic must fall under them (ext_panicprop.go)
 			fc.oblige(fr, "panic-spec", fmt.Sprintf("%s:%d", key, i), g, ob, pos, "callee panics when "+cl.Text+": only under the caller's documented panic condition", fr.props())
+		} else if np := fr.rootNoPanic(); np != "" {
+			// ext_nopanic.go: the caller propagates the callee's documented panic, except under its own `nopanic when` condition
+			fc.oblige(fr, "nopanic", fmt.Sprintf("%s:%d", key, i), g, implies(np, not(t)), pos, "under the `nopanic when` condition the callee does not panic: !("+cl.Text+")", fr.props())
 		} else {
 			fc.oblige(fr, "pre", fmt.Sprintf("%s:nopanic%d", key, i), g, not(t), pos, "callee panics when "+cl.Text, fr.props())
 		}
 		fc.assume(g, not(t))
 	}
+	fr.calleeNoPanic(spec, key, env, g, pos) // ext_nopanic.go
 	old := st.clone()
 	// frame
 	if !spec.HasMod && !spec.Trusted && !spec.Assume {
@@ -497,6 +506,9 @@ func (fr *Frame) applySpecClosure(spec *FuncSpec, key string, sig *types.Signatu
 		if strings.HasPrefix(cl.Label, "local-") && !spec.Assume {
 			continue // `ensures [local-...]`: proved against the body, not re-assumed at call sites (keeps the callers' VCs small)
 		}
+		if fr.ignoresPost(key, cl.Label) {
+			continue // `ignorepost` clause of the function under verification
+		}
 		t, err := env.evalBool(cl.E)
 		if err != nil {
 			fc.eng.stale(spec, cl, err)
@@ -622,6 +634,7 @@ func (fr *Frame) builtin(in ssa.Instruction, b *ssa.Builtin, c *ssa.CallCommon, 
 		case *types.Map:
 			l := fc.define(fr.prefix+"maplen", "Int", ite(eq(a.t, nilPtr), "0", app("select", fc.comp(st, "ML", "(Array Ptr Int)"), a.t)))
 			fc.assume("true", app(">=", l, "0"))
+			fr.extMapLenEmpty(u, a.t, l, st) // ext_mapiter.go: a map of length 0 has no entry
 			fc.mapLenWitness(st, u, a.t, l) // len(m) > 0 ==> m has some key (ext_c34.go)
 			return []SV{{t: l, typ: intT}}
 		}
@@ -690,6 +703,9 @@ func (fr *Frame) appendBuiltin(c *ssa.CallCommon, args []SV, st *State, g string
 		addLen = "0"
 	}
 	newLen := fc.define(fr.prefix+"applen", "Int", plus(slen(s.t), addLen))
+	// the result of an append that returns is a slice, so its length is an int (the runtime panics with "len out of range" otherwise; the
+	// operand slices exist simultaneously, so for elements of non-zero size the sum of their lengths cannot reach 2^63 in the first place)
+	fc.assume(g, app("<", newLen, "9223372036854775808"))
 	// result: either in place (capacity suffices) or a fresh block; Go decides by capacity
 	inPlace := app("<=", newLen, scap(s.t))
 	p := fc.alloc(st)
@@ -986,6 +1002,44 @@ func (fr *Frame) badgerRunModel(key string, c *ssa.CallCommon, st *State, g stri
 }
 
 // trustsPre: the root function's contract declares the preconditions of this callee as assumed (trustpre clause).
+// ignoresPost: the root function's contract drops this postcondition of the callee at its call sites (ignorepost clause).
+func (fr *Frame) ignoresPost(key, label string) bool {
+	root := fr
+	for root.callerFrame != nil {
+		root = root.callerFrame
+	}
+	if root.spec == nil || root.spec.IgnorePost == nil {
+		return false
+	}
+	for n, keep := range root.spec.IgnorePost {
+		if key == n || strings.HasSuffix(key, "."+n) || strings.HasSuffix(key, ")."+n) {
+			for _, k := range keep {
+				if k == label && label != "" {
+					return false
+				}
+			}
+			return true
+		}
+	}
+	return false
+}
+
+func (fr *Frame) trustsPreQuiet(key string) bool {
+	root := fr
+	for root.callerFrame != nil {
+		root = root.callerFrame
+	}
+	if root.spec == nil {
+		return false
+	}
+	for _, n := range root.spec.TrustPreQuiet {
+		if key == n || strings.HasSuffix(key, "."+n) || strings.HasSuffix(key, ")."+n) {
+			return true
+		}
+	}
+	return false
+}
+
 func (fr *Frame) trustsPre(key string) bool {
 	root := fr
 	for root.callerFrame != nil {
